@@ -5,11 +5,13 @@ package main
 // instrumented methods whose real invocations are logged (an atom served from the memo produces no line).
 
 import (
+	"encoding/json"
 	"fmt"
 	"sort"
 	"strconv"
 
 	"github.com/hyperjumptech/grule-rule-engine/ast"
+	"github.com/hyperjumptech/grule-rule-engine/model"
 )
 
 type Sub struct {
@@ -100,15 +102,35 @@ func cloneFact(f *Fact) *Fact {
 	return &g
 }
 
+// JFact is the content of the JSON fact J: {"a":A,"o":{"n":N},"arr":[..],"t":T,"s":S}
+type JFact struct {
+	A int64 `json:"a"`
+	O struct {
+		N int64 `json:"n"`
+	} `json:"o"`
+	Arr []int64 `json:"arr"`
+	T   bool    `json:"t"`
+	S   string  `json:"s"`
+}
+
 // World is one data context worth of facts.
 type World struct {
 	F    *Fact
 	N    int64
 	HasN bool
+	J    *JFact // JSON fact (nil = none)
 	dc   ast.IDataContext
 }
 
-func (w *World) Clone() *World { return &World{F: cloneFact(w.F), N: w.N, HasN: w.HasN} }
+func (w *World) Clone() *World {
+	c := &World{F: cloneFact(w.F), N: w.N, HasN: w.HasN}
+	if w.J != nil {
+		j := *w.J
+		j.Arr = append([]int64{}, w.J.Arr...)
+		c.J = &j
+	}
+	return c
+}
 
 func (w *World) DataContext() ast.IDataContext {
 	dc := ast.NewDataContext()
@@ -120,8 +142,47 @@ func (w *World) DataContext() ast.IDataContext {
 			panic(err)
 		}
 	}
+	if w.J != nil {
+		b, _ := json.Marshal(w.J)
+		if err := dc.AddJSON("J", b); err != nil {
+			panic(err)
+		}
+	}
 	w.dc = dc
 	return dc
+}
+
+// jsonValue reads a member of the JSON fact through the value-node API and projects it to int64 / bool / string.
+func (w *World) jsonValue(path ...interface{}) interface{} {
+	var node model.ValueNode = w.dc.Get("J")
+	for _, p := range path {
+		var err error
+		switch x := p.(type) {
+		case string:
+			node, err = node.GetChildNodeByField(x)
+		case int:
+			node, err = node.GetChildNodeByIndex(x)
+		}
+		if err != nil {
+			panic("JSON fact: " + err.Error())
+		}
+	}
+	v := node.Value()
+	switch v.Kind().String() {
+	case "float64", "float32":
+		i := int64(v.Float())
+		if float64(i) != v.Float() {
+			panic(fmt.Sprintf("JSON member %v is not integral: %v", path, v.Float()))
+		}
+		return i
+	case "int64", "int", "int32", "int16", "int8":
+		return v.Int()
+	case "bool":
+		return v.Bool()
+	case "string":
+		return v.String()
+	}
+	panic(fmt.Sprintf("JSON member %v has kind %s", path, v.Kind()))
 }
 
 // Snapshot is the full projection of the fact state: location key -> value, exactly the keys the
@@ -152,6 +213,19 @@ func (w *World) Snapshot() J {
 	sort.Strings(keys)
 	for _, k := range keys {
 		s["F.M["+k+"]"] = f.M[k]
+	}
+	if w.J != nil {
+		if w.dc == nil {
+			s["J.a"], s["J.o.n"], s["J.t"], s["J.s"] = w.J.A, w.J.O.N, w.J.T, w.J.S
+			for i, v := range w.J.Arr {
+				s["J.arr["+strconv.Itoa(i)+"]"] = v
+			}
+		} else {
+			s["J.a"], s["J.o.n"], s["J.t"], s["J.s"] = w.jsonValue("a"), w.jsonValue("o", "n"), w.jsonValue("t"), w.jsonValue("s")
+			for i := range w.J.Arr {
+				s["J.arr["+strconv.Itoa(i)+"]"] = w.jsonValue("arr", i)
+			}
+		}
 	}
 	if w.HasN {
 		n := w.N
